@@ -371,4 +371,47 @@ example :
      | .ok f' => xrLoadR ⟨some, id⟩ "HTML5" "P-" none f' []
      | .error _ => []) = [(.str "P-a", .dict [(.str "ref", .str "1")])] := by rfl
 
+/-! ### the saved target location is that of the render that saves it -/
+
+/-- **separately per render**: what a node answers for its target in the `k`-th render of one document object is what
+    it answers when that render is the only one — whatever renders (other renderers, other file settings) came before
+    or come after -/
+theorem target_is_of_this_render (ov : Option String) (id : String) (pre post : List RenderView) (v : RenderView) :
+    (renderUrls ov id (pre ++ v :: post))[pre.length]? = some (nodeUrl ov id v) := by
+  simp [renderUrls]
+
+/-- without an override and without a base url the target is a file of this render — the node's own file, or the
+    file of its nearest enclosing file-creating ancestor followed by `#id` -/
+theorem target_names_a_file_of_this_render (id : String) (v : RenderView) (hb : v.base = "") :
+    nodeUrl none id v = enclosingFile v.ancestors ++ "#" ++ id ∨ ∃ f, v.own = some f ∧ f ≠ "" ∧ nodeUrl none id v = f := by
+  obtain ⟨base, own, anc⟩ := v
+  simp only at hb; subst hb
+  have h0 : ("".endsWith "/") = false := by decide
+  cases own with
+  | none => left; simp [nodeUrl, h0]
+  | some f =>
+    by_cases hf : f = ""
+    · left; simp [nodeUrl, h0, hf]
+    · right; exact ⟨f, rfl, hf, by simp [nodeUrl, h0, hf]⟩
+
+/-- the enclosing file is one of the ancestors' files (or nothing at all when no ancestor creates a file) -/
+theorem enclosingFile_mem (anc : List (Option String)) :
+    enclosingFile anc = "" ∨ some (enclosingFile anc) ∈ anc := by
+  induction anc with
+  | nil => left; rfl
+  | cons a r ih =>
+    cases a with
+    | some f => right; simp [enclosingFile]
+    | none =>
+      rcases ih with h | h
+      · left; simpa [enclosingFile] using h
+      · right; simp [enclosingFile, h]
+
+/-- non-vacuity: HTML5 then Text, an equation inside `sec-a.html` / `sec-a.txt` -/
+example : renderUrls none "eq:1" [⟨"", none, [none, some "sec-a.html", some "index.html"]⟩,
+                                   ⟨"", some "", [none, some "sec-a.txt", some "index.txt"]⟩]
+    = ["sec-a.html#eq:1", "sec-a.txt#eq:1"] := by
+  have h0 : ("".endsWith "/") = false := by decide
+  simp [renderUrls, nodeUrl, h0, enclosingFile]
+
 end PlasVerif.Properties.C20
